@@ -900,6 +900,27 @@ func (c *Ctx) Cmp(op Op, a, b *Term) *Term {
 	if (op == OUlt || op == OUle) && a.Op == OZExt && b.Op == OZExt && a.Args[0].S == b.Args[0].S {
 		return c.Cmp(op, a.Args[0], b.Args[0])
 	}
+	if op == OUlt && a.Op == OAdd && a.S.W <= 64 && (a.Args[0] == b || a.Args[1] == b) {
+		// x + y < x is false when the addition cannot wrap
+		other := a.Args[0]
+		if other == b {
+			other = a.Args[1]
+		}
+		if ro, rs := c.rangeOf(other), c.rangeOf(a); ro.lo >= 0 && rs != fullRange(a.S.W) && c.rangeOf(b).lo >= 0 {
+			return c.ff
+		}
+	}
+	if (op == OUlt || op == OUle) && a.S.W <= 64 {
+		ra, rb := c.rangeOf(a), c.rangeOf(b)
+		if ra.lo >= 0 && rb.lo >= 0 {
+			if ra.hi < rb.lo || (op == OUle && ra.hi <= rb.lo) {
+				return c.tt
+			}
+			if ra.lo > rb.hi || (op == OUlt && ra.lo >= rb.hi) {
+				return c.ff
+			}
+		}
+	}
 	if (op == OSlt || op == OSle) && a.S.W <= 64 {
 		// decide by ranges where possible, else narrow
 		ra, rb := c.rangeOf(a), c.rangeOf(b)
